@@ -28,6 +28,8 @@ pub trait HashLike: Sized + Clone + core::fmt::Debug + PartialEq + Eq + Ord + co
     fn build(v: &HV) -> Self;
     /// text of the stored value (through store_into_bytes; dual: of the raw form)
     fn text(&self) -> String;
+    /// same value, but written over an object that held a longer, different value before
+    fn build_dirty(v: &HV) -> Self;
 }
 
 macro_rules! impl_plain {
@@ -67,6 +69,15 @@ macro_rules! impl_plain {
             }
             fn text(&self) -> String {
                 crate::util::text_of(self)
+            }
+            fn build_dirty(v: &HV) -> Self {
+                let mut d = <$t>::new_from_internals_near_raw(30, &[61, 62, 63].repeat(21), &[63, 62, 61].repeat($s2 / 3));
+                let mut a1 = [0u8; 64];
+                let mut a2 = [0u8; $s2];
+                a1[..v.bh1.len()].copy_from_slice(&v.bh1);
+                a2[..v.bh2.len()].copy_from_slice(&v.bh2);
+                d.init_from_internals_raw(v.log, &a1, &a2, v.bh1.len() as u8, v.bh2.len() as u8);
+                d
             }
         }
     };
@@ -114,6 +125,12 @@ macro_rules! impl_dual {
             }
             fn text(&self) -> String {
                 crate::util::text_of(&self.to_raw_form())
+            }
+            fn build_dirty(v: &HV) -> Self {
+                let mut d = <$t>::new_from_internals_near_raw(30, &[9u8; 64], &[8u8; $s2]);
+                let raw = ssdeep::FuzzyHashData::<64, $s2, false>::new_from_internals_near_raw(v.log, &v.bh1, &v.bh2);
+                d.init_from_raw_form(&raw);
+                d
             }
         }
     };
